@@ -489,9 +489,15 @@ let mon_srv prop case impl =
     (* a completed (acknowledged) upload leaves exactly the uploaded bytes at its path *)
     let check_uploads () =
       let last_upload = Hashtbl.create 7 in
+      let rel_of name = match kernel_segs (join rdir (convert_file_path name)) with
+        | _ :: rel -> String.concat "/" (List.map string_of_bytes rel) | [] -> "" in
+      (* names with an accepted upload that was left in flight: what happens to them later is C13's business (finding D6) *)
+      let in_flight = List.filter_map (fun r -> match decoded r with
+          | Some (Wrq (name, _, _)) when r.scont = "-" && r.sreply <> "reply=none" && not (is_refusal (fst (reply_hex r.sreply))) -> Some (rel_of name)
+          | _ -> None) recs in
       List.iter (fun r ->
         match decoded r with
-        | Some (Wrq (name, _, _)) when r.sxfer = "ul=acked" ->
+        | Some (Wrq (name, _, _)) when r.sxfer = "ul=acked" && not (List.mem (rel_of name) in_flight) ->
           let segs = kernel_segs (join rdir (convert_file_path name)) in
           (match segs with
            | _ :: rel -> Hashtbl.replace last_upload (String.concat "/" (List.map string_of_bytes rel))
